@@ -30,7 +30,9 @@ from . import core
 LEVEL = "model_checking"
 NONE = 99
 
-FAMILIES = ["relus_clips", "min_max", "no_op", "dropout", "cast_cos", "scatter_static"]
+FAMILIES = ["relus_clips", "min_max", "no_op", "dropout", "cast_cos", "scatter_static", "scatter_dynamic", "expand_binop", "materialize",
+            "collapse_slices", "casts", "no_op_expand", "reshape_reshape", "flatten", "slice_split", "transposes", "unsqueeze2",
+            "squeeze_reshape", "matmul_reshape"]
 MY_DEVS = ["relu_clip_negmax", "clip_clip_disjoint", "relu_clip_no_dtype_raise", "scatter_symbolic_raise",
            "scatter_static_ignores_reduction", "cast_cos_overflow", "const_tolerance", "overridable_read_as_const",
            "minmax_clip_rank", "clip_inputs_pre_opset11", "expand_rank_extension", "expand_binop_drops_attrs",
@@ -77,7 +79,16 @@ class Host:
         return h.make_tensor_value_info(name, _onnx_dt(dt), shape)
 
     def inp(self, name, dt, value, shape="actual"):
+        """graph input.  shape: "actual" (static), a list (declared dims: int / str / None) or None: the value has no
+        static shape at all - a graph input must have one, so `name` is then an un-annotated Identity of an input"""
+        from onnx import helper as h
+
         value = np.asarray(value, dtype=NP[dt])
+        if shape is None:
+            self.inputs.append(self.vi(name + "_in", dt, [None] * value.ndim))
+            self.feed[name + "_in"] = value
+            self.nodes.append(h.make_node("Identity", [name + "_in"], [name]))
+            return name
         self.inputs.append(self.vi(name, dt, list(value.shape) if shape == "actual" else shape))
         self.feed[name] = value
         return name
@@ -93,9 +104,10 @@ class Host:
         if kind == "cnode":
             self.nodes.insert(0, h.make_node("Constant", [], [name], value=nh.from_array(value, name + "_v")))
         if kind in ("ginput", "ginit"):
-            self.inputs.append(self.vi(name, dt, list(value.shape)))
             if alt is not None:
                 self.alt[name] = np.asarray(alt, dtype=NP[dt])
+            free = alt is not None and self.alt[name].shape != value.shape
+            self.inputs.append(self.vi(name, dt, [None] * value.ndim if free else list(value.shape)))
         if kind == "ginput":
             self.feed[name] = value
         return name
@@ -133,7 +145,7 @@ def _common():
 
 
 # ------------------------------------------------------------------ gamma: one builder per family
-def build_relus_clips(p, osh):
+def build_relus_clips(p, osh, aux):
     from onnxscript.rewriter.rules.common import _fuse_relus_clips as m
 
     h = Host()
@@ -174,7 +186,7 @@ def build_relus_clips(p, osh):
     return h, [rule]
 
 
-def build_min_max(p, osh):
+def build_min_max(p, osh, aux):
     from onnxscript.rewriter.rules.common import _min_max_to_clip as m
 
     h = Host(p["opset"])
@@ -198,7 +210,7 @@ def build_min_max(p, osh):
 NO_CONST = {0: 0.0, 1: 1e-9, 1000: 1.0, 1001: 1.0 + 5e-6, 2000: 2.0}
 
 
-def build_no_op(p, osh):
+def build_no_op(p, osh, aux):
     from onnxscript.rewriter.rules.common import _no_op as m
 
     h = Host()
@@ -212,7 +224,7 @@ def build_no_op(p, osh):
     return h, rules[p["op"]]
 
 
-def build_dropout(p, osh):
+def build_dropout(p, osh, aux):
     from onnxscript.rewriter.rules.common import _no_op as m
 
     h = Host(p["opset"])
@@ -232,7 +244,7 @@ def build_dropout(p, osh):
     return h, [m.dropout_zero_rule, m.dropout_inference_rule]
 
 
-def build_cast_cos(p, osh):
+def build_cast_cos(p, osh, aux):
     from onnx import numpy_helper as nh
 
     from onnxscript.rewriter.rules.common import _cast_constant_of_shape as m
@@ -252,7 +264,7 @@ def build_cast_cos(p, osh):
     return h, [m.cast_constant_of_shape_rule, m.cast_constant_of_shape_without_value_rule]
 
 
-def build_scatter_static(p, osh):
+def build_scatter_static(p, osh, aux):
     from onnxscript.rewriter.rules.common import _redundant_scatter_nd as m
 
     h = Host()
@@ -262,11 +274,8 @@ def build_scatter_static(p, osh):
     data = np.arange(1, int(np.prod(ds)) + 1, dtype=np.float32).reshape(ds)
     upd = (2 - np.arange(1, int(np.prod(us)) + 1, dtype=np.float32)).reshape(us)
 
-    def decl(kind, actual):
-        return {"static": actual, "sym": ["N"] + actual[1:], "sym2": ["M"] + actual[1:], "unk": [None] + actual[1:], "none": None}[kind]
-
-    h.inp("data", "f32", data, shape=decl(p["dd"], ds))
-    h.inp("upd", "f32", upd, shape=decl(p["ud"], us))
+    h.inp("data", "f32", data, shape=from_decl(aux["dd"]))
+    h.inp("upd", "f32", upd, shape=from_decl(aux["ud"]))
     idx = {"perm": [1, 0, 2], "short": [0, 1]}.get(p["idx"], [0, 1, 2])
     kind = p["idx"] if p["idx"] in ("ginput", "ginit") else "init"
     h.operand("idx", kind, "i64", np.array(idx, dtype=np.int64).reshape(-1, 1), alt=np.array([1, 0, 2], dtype=np.int64).reshape(-1, 1))
@@ -276,8 +285,306 @@ def build_scatter_static(p, osh):
     return h, [m.no_op_static_scatter_nd_rule]
 
 
+def build_scatter_dynamic(p, osh, aux):
+    from onnxscript.rewriter.rules.common import _redundant_scatter_nd as m
+
+    h = Host()
+    ds = list(p["ds"])
+    data = np.arange(1, int(np.prod(ds)) + 1, dtype=np.float32).reshape(ds)
+    h.inp("data", "f32", data, shape=from_decl(aux["dd"]))
+    tds, us = list(aux["tds"]), list(aux["us"])
+    h.inp("upd", "f32", -np.arange(1, int(np.prod(us)) + 1, dtype=np.float32).reshape(us), shape=[None] * len(us))
+    attrs = {} if p["start"] == NONE else {"start": p["start"]}
+    h.node("Shape", ["data"], ["shp"], **attrs)
+    h.operand("axis", p["akind"], "i64", np.array(p["axis"], dtype=np.int64), alt=np.array(0, dtype=np.int64))
+    h.node("Gather", ["shp", "axis"], ["dim"], axis=0)
+    h.operand("zero", "init", "i64", np.array(0, dtype=np.int64))
+    h.operand("one", "init", "i64", np.array(1, dtype=np.int64))
+    h.operand("m1", "init", "i64", np.array([-1], dtype=np.int64))
+    h.node("Range", ["zero", "dim", "one"], ["rng"])
+    h.node("Unsqueeze", ["rng", "m1"], ["idx"])
+    if p["tdk"] in ("tr_vi", "tr_novi"):
+        h.node("Transpose", ["data"], ["td"], perm=list(aux["perm"]))
+        if list(aux["tdd"]) != [-100]:
+            h.info("td", "f32", from_decl(aux["tdd"]))
+    else:
+        h.inp("td", "f32", (10 + np.arange(1, int(np.prod(tds)) + 1, dtype=np.float32)).reshape(tds), shape=from_decl(aux["tdd"]))
+    rattrs = {} if p["red"] == "absent" else {"reduction": p["red"]}
+    h.node("ScatterND", ["td", "idx", "upd"], ["y"], **rattrs)
+    h.out("y", "f32", [None] * len(osh))
+    return h, [m.no_op_dynamic_scatter_nd_rule]
+
+
+def sy_name(code):
+    return SYMS.get(code)
+
+
+def from_decl(decl):
+    """spec declared shape (ints, negative codes, [-100]) -> Host.inp shape argument"""
+    d = decl_shape(decl)
+    return d
+
+
+EX_CLASS = {"And": "bool", "Or": "bool", "Xor": "bool", "BitShift_L": "u8", "BitShift_R": "u8", "BitwiseAnd": "i32", "BitwiseOr": "i32",
+            "BitwiseXor": "i32", "Div": "i64", "Mod": "i64", "Mod_fmod": "i64"}
+EX_BOOL_OUT = {"Equal", "Greater", "GreaterOrEqual", "Less", "LessOrEqual"}
+
+
+def ex_operand(op, first, shape):
+    cls = EX_CLASS.get(op, "f32")
+    n = int(np.prod(shape)) if len(shape) else 1
+    ks = range(1, n + 1)
+    if cls == "bool":
+        v = [(k % 2) if first else ((k // 2) % 2) for k in ks]
+    elif cls in ("u8", "i32"):
+        v = [((k - 1) % 5) + 1 if first else (k - 1) % 3 for k in ks]
+    else:
+        v = [((k - 1) % 5) - 2 if first else ((k - 1) % 3) + 1 for k in ks]
+    return cls, np.array(v, dtype=NP[cls]).reshape(shape)
+
+
+def build_expand_binop(p, osh, aux):
+    from onnxscript.rewriter.rules.common import _remove_expand_before_binary_op as m
+
+    h = Host()
+    op = p["op"]
+    cls, a = ex_operand(op, p["pos"] == 1, p["as"])
+    _, b = ex_operand(op, p["pos"] == 2, p["bs"])
+    h.inp("a", cls, a, shape=from_decl(aux["xd"]))
+    h.inp("b", cls, b, shape=from_decl(aux["yd"]))
+    es = np.array(p["es"], dtype=np.int64)
+    if p["strat"] == "const":
+        h.operand("s", "init", "i64", es)
+    else:
+        h.inp("s", "i64", es)
+    h.node("Expand", ["a", "s"], ["e"])
+    if list(aux["ed"]) != [-100]:
+        h.info("e", cls, from_decl(aux["ed"]))
+    attrs = {"Mod_fmod": {"fmod": 1}, "BitShift_L": {"direction": "LEFT"}, "BitShift_R": {"direction": "RIGHT"}}.get(op, {})
+    h.node(op.split("_")[0], ["e", "b"] if p["pos"] == 1 else ["b", "e"], ["y"], **attrs)
+    h.out("y", "bool" if op in EX_BOOL_OUT else cls, from_decl(aux["od"]))
+    return h, m.expand_before_binary_op_rules
+
+
+def build_materialize(p, osh, aux):
+    from onnxscript.rewriter.rules.common import _materialize_reshape_shape as m
+
+    h = Host(p["opset"])
+    ds = list(p["ds"])
+    h.inp("data", "f32", np.arange(1, int(np.prod(ds)) + 1, dtype=np.float32).reshape(ds))
+    tg = np.array(p["tg"], dtype=np.int64)
+    if p["skind"] == "ginput":
+        h.inp("s", "i64", tg)
+    else:
+        h.operand("s", p["skind"], "i64", tg)
+    attrs = {} if p["az"] == NONE else {"allowzero": p["az"]}
+    h.node("Reshape", ["data", "s"], ["r"], **attrs)
+    if list(aux["od"]) != [-100]:
+        h.info("r", "f32", from_decl(aux["od"]))
+    h.node("Identity", ["r"], ["y"])
+    h.out("y", "f32", [None] * len(osh))
+    return h, [m.materialize_reshape_shape_rule]
+
+
+INT64_MAX = 2**63 - 1
+
+
+def build_collapse_slices(p, osh, aux):
+    from onnxscript.rewriter.rules.common import _collapse_slices as m
+
+    h = Host()
+    ds = list(p["ds"])
+    h.inp("x", "f32", np.arange(1, int(np.prod(ds)) + 1, dtype=np.float32).reshape(ds), shape=from_decl(aux["xd"]))
+    k = p["ckind"]
+    en = INT64_MAX if p["en"] == 1000000 else p["en"]
+    h.operand("st", k, "i64", [p["st"]], alt=[p["st"] + 1])
+    h.operand("en", k, "i64", [en], alt=[1])
+    h.operand("ax", k, "i64", [p["ax"]])
+    h.operand("sp", k, "i64", [p["sp"]])
+    h.node("Slice", ["x", "st", "en", "ax", "sp"], ["r"])
+    if list(aux["od"]) != [-100]:
+        h.info("r", "f32", from_decl(aux["od"]))
+    h.node("Identity", ["r"], ["y"])
+    h.out("y", "f32", [None] * len(osh))
+    return h, [m.collapse_slice_rule if p["rule"] == "r1" else m.collapse_slice2_rule]
+
+
+def ca_x(t1):
+    if t1 == "bool":
+        return np.array([k % 2 for k in range(1, 8)], dtype=np.bool_)
+    return xt(t1, [7])
+
+
+def build_casts(p, osh, aux):
+    from onnxscript.rewriter.rules.common import _basic_rules as m
+
+    h = Host()
+    if p["kind"] == "castcast":
+        h.inp("x", p["t1"], ca_x(p["t1"]))
+        h.node("Cast", ["x"], ["t"], to=_onnx_dt(p["t2"]))
+        h.node("Cast", ["t"], ["y"], to=_onnx_dt(p["t3"]))
+        rule = m.cast_cast_rule
+    else:
+        h.inp("x0", p["t1"], ca_x(p["t1"]))
+        h.node("Identity", ["x0"], ["x"])
+        if p["known"]:
+            h.info("x", p["t1"], [7])
+        h.node("Cast", ["x"], ["y"], to=_onnx_dt(p["t3"]))
+        rule = m.no_op_cast_rule
+    h.out("y", p["t3"], osh)
+    return h, [rule]
+
+
+def build_no_op_expand(p, osh, aux):
+    from onnxscript.rewriter.rules.common import _basic_rules as m
+
+    h = Host()
+    xs = list(p["as"])
+    h.inp("x", "f32", np.arange(1, int(np.prod(xs)) + 1, dtype=np.float32).reshape(xs), shape=from_decl(aux["xd"]))
+    h.operand("s", p["skind"], "i64", np.array(p["es"], dtype=np.int64), alt=np.array([2] + list(p["es"]), dtype=np.int64))
+    h.node("Expand", ["x", "s"], ["r"])
+    h.node("Identity", ["r"], ["y"])
+    h.out("y", "f32", [None] * len(osh))
+    return h, [m.no_op_expand_rule]
+
+
+def build_reshape_reshape(p, osh, aux):
+    from onnxscript.rewriter.rules.common import _basic_rules as m
+
+    h = Host()
+    xs = list(p["xs"])
+    h.inp("x", "f32", np.arange(1, int(np.prod(xs)) + 1, dtype=np.float32).reshape(xs))
+    h.operand("s1", "init", "i64", np.array(p["s1"], dtype=np.int64))
+    if p["skind"] == "ginput":
+        h.inp("s2", "i64", np.array(p["s2"], dtype=np.int64))
+    else:
+        h.operand("s2", p["skind"], "i64", np.array(p["s2"], dtype=np.int64))
+    h.node("Reshape", ["x", "s1"], ["t"])
+    attrs = {} if p["az"] == NONE else {"allowzero": p["az"]}
+    h.node("Reshape", ["t", "s2"], ["r"], **attrs)
+    if p["ovi"]:
+        h.info("r", "f32", list(osh))
+    h.node("Identity", ["r"], ["y"])
+    h.out("y", "f32", [None] * len(osh))
+    if p["extra"]:
+        h.node("Neg", ["t"], ["y2"])
+        h.out("y2", "f32", [None] * len([d for d in p["s1"]]))
+    return h, [m.reshape_reshape_rule]
+
+
+def build_flatten(p, osh, aux):
+    from onnxscript.rewriter.rules.common import _basic_rules as m
+
+    h = Host()
+    xs = list(p["xs"])
+    h.inp("x", "f32", np.arange(1, int(np.prod(xs)) + 1, dtype=np.float32).reshape(xs), shape=from_decl(aux["xd"]))
+    attrs = {} if p["axis"] == NONE else {"axis": p["axis"]}
+    h.node("Flatten", ["x"], ["r"], **attrs)
+    if p["ovi"]:
+        h.info("r", "f32", list(osh))
+    h.node("Identity", ["r"], ["y"])
+    h.out("y", "f32", [None, None])
+    return h, [m.flatten_to_reshape_rule]
+
+
+def build_slice_split(p, osh, aux):
+    from onnxscript.rewriter.rules.common import _basic_rules as m
+
+    h = Host(p["opset"])
+    xs = list(p["xs"])
+    h.inp("x", "f32", np.arange(1, int(np.prod(xs)) + 1, dtype=np.float32).reshape(xs), shape="actual" if p["known"] else None)
+    for n, v in (("b0", p["b0"]), ("e0", p["e0"]), ("b1", p["b1"]), ("e1", p["e1"]), ("ax", p["ax"])):
+        h.operand(n, "init", "i64", [v])
+    if p["order"] == "ab":
+        h.node("Slice", ["x", "b0", "e0", "ax"], ["y1"])
+    h.node("Slice", ["x", "b1", "e1", "ax"], ["y2"])
+    if p["order"] == "ba":
+        h.node("Slice", ["x", "b0", "e0", "ax"], ["y1"])
+    h.out("y1", "f32", [None] * len(xs))
+    h.out("y2", "f32", [None] * len(xs))
+    return h, [m.slice_split_rule]
+
+
+def build_transposes(p, osh, aux):
+    from onnxscript.rewriter.rules.common import _basic_rules as m
+
+    h = Host()
+    xs = [2, 3, 1][: p["r"]]
+    h.inp("x", "f32", np.arange(1, int(np.prod(xs)) + 1, dtype=np.float32).reshape(xs))
+
+    def tr(src, dst, perm):
+        attrs = {} if list(perm) == [-1] else {"perm": list(perm)}
+        h.node("Transpose", [src], [dst], **attrs)
+
+    if p["kind"] == "noop":
+        tr("x", "y", p["p1"])
+        rule = m.no_op_transpose_rule
+    else:
+        tr("x", "t", p["p1"])
+        tr("t", "y", p["p2"])
+        rule = m.transpose_transpose_rule
+    h.out("y", "f32", osh)
+    return h, [rule]
+
+
+def build_unsqueeze2(p, osh, aux):
+    from onnxscript.rewriter.rules.common import _basic_rules as m
+
+    h = Host()
+    xs = list(p["xs"])
+    h.inp("x", "f32", np.arange(1, int(np.prod(xs)) + 1, dtype=np.float32).reshape(xs))
+    h.operand("a1", p["akind"], "i64", [p["a1"]], alt=[0])
+    h.operand("a2", p["akind"], "i64", [p["a2"]], alt=[0])
+    h.node("Unsqueeze", ["x", "a1"], ["t"])
+    h.node("Unsqueeze", ["t", "a2"], ["y"])
+    h.out("y", "f32", [None] * len(osh))
+    return h, [m.unsqueeze_unsqueeze_rule]
+
+
+def build_squeeze_reshape(p, osh, aux):
+    from onnxscript.rewriter.rules.common import _basic_rules as m
+
+    h = Host()
+    xs = list(p["xs"])
+    h.inp("x", "f32", np.arange(1, int(np.prod(xs)) + 1, dtype=np.float32).reshape(xs), shape=from_decl(aux["xd"]))
+    ins = ["x"]
+    if p["axes"]:
+        ins.append(h.operand("axes", "init", "i64", [0]))
+    h.node("Squeeze", ins, ["t"])
+    h.operand("tg", p["tkind"], "i64", np.array(p["tgt"], dtype=np.int64), alt=np.array([1, -1], dtype=np.int64))
+    h.node("Reshape", ["t", "tg"], ["y"])
+    h.out("y", "f32", [None] * len(osh))
+    return h, [m.squeeze_reshape_1d_rule]
+
+
+def build_matmul_reshape(p, osh, aux):
+    from onnxscript.rewriter.rules.common import _broadcast_to_matmul as m
+
+    h = Host()
+    as_, bs = list(p["as"]), list(p["bs"])
+    h.inp("a", "f32", np.arange(1, int(np.prod(as_)) + 1, dtype=np.float32).reshape(as_))
+    h.inp("b", "f32", (2 * np.arange(1, int(np.prod(bs)) + 1, dtype=np.float32) - 3).reshape(bs))
+    h.operand("sa", "init", "i64", np.array(p["sa"], dtype=np.int64))
+    h.node("Reshape", ["a", "sa"], ["ra"])
+    if list(p["sb"]) == [-1]:
+        rb = "b"
+    else:
+        h.operand("sb", "init", "i64", np.array(p["sb"], dtype=np.int64))
+        h.node("Reshape", ["b", "sb"], ["rb"])
+        rb = "rb"
+    h.node("MatMul", ["ra", rb], ["mm"])
+    h.operand("sc", "init", "i64", np.array(p["sc"], dtype=np.int64))
+    h.node("Reshape", ["mm", "sc"], ["y"])
+    h.out("y", "f32", [None] * len(osh))
+    return h, m.rules
+
+
 BUILDERS = {"relus_clips": build_relus_clips, "min_max": build_min_max, "no_op": build_no_op, "dropout": build_dropout,
-            "cast_cos": build_cast_cos, "scatter_static": build_scatter_static}
+            "cast_cos": build_cast_cos, "scatter_static": build_scatter_static, "scatter_dynamic": build_scatter_dynamic, "expand_binop": build_expand_binop,
+            "materialize": build_materialize, "collapse_slices": build_collapse_slices, "casts": build_casts,
+            "no_op_expand": build_no_op_expand, "reshape_reshape": build_reshape_reshape, "flatten": build_flatten,
+            "slice_split": build_slice_split, "transposes": build_transposes, "unsqueeze2": build_unsqueeze2,
+            "squeeze_reshape": build_squeeze_reshape, "matmul_reshape": build_matmul_reshape}
 
 
 # ------------------------------------------------------------------ observation
@@ -328,7 +635,7 @@ def out_shapes(lhs):
     return list(lhs["shape"])
 
 
-def observe(fam, p, lhs):
+def observe(fam, p, lhs, aux):
     """Build the host, run it, apply the real rule(s), run the result.  Pure function of (fam, p, lhs)."""
     import onnx
 
@@ -336,7 +643,7 @@ def observe(fam, p, lhs):
     from onnxscript.rewriter import RewriteRuleSet
 
     logging.getLogger("onnxscript").setLevel(logging.CRITICAL)
-    host, rules = BUILDERS[fam](p, out_shapes(lhs))
+    host, rules = BUILDERS[fam](p, out_shapes(lhs), aux)
     model = host.model()
     feeds = host.feeds()
     ob = {"fired": None, "raised": None, "before": None, "after": None, "orig_checker": None, "checker": None,
@@ -383,6 +690,9 @@ def observe(fam, p, lhs):
         if bad:
             i = bad[0]
             ob["diff"] = {"feed": i, "before": [enc(x, SCALE.get(fam, 1)) for x in befores[i]], "after": [enc(x, SCALE.get(fam, 1)) for x in afters[i]]}
+            if ob["diff"]["before"] == ob["diff"]["after"]:      # the fixed-point encoding hides the difference: show raw values
+                ob["diff"] = {"feed": i, "before": [np.asarray(x).reshape(-1).tolist() for x in befores[i]],
+                              "after": [np.asarray(x).reshape(-1).tolist() for x in afters[i]]}
     except Exception as e:  # noqa: BLE001
         ob["after_err"] = f"{type(e).__name__}: {str(e)[:300]}"
     return ob
@@ -392,7 +702,7 @@ def _worker(case):
     import onnxruntime as ort
 
     ort.set_default_logger_severity(4)
-    return observe(case["fam"], case["p"], enc_spec(case["lhs"]))
+    return observe(case["fam"], case["p"], enc_spec(case["lhs"]), case["aux"])
 
 
 # ------------------------------------------------------------------ TLC
@@ -414,7 +724,8 @@ def tlc_cases(ctx):
     from concurrent.futures import ThreadPoolExecutor
 
     tier = "quick" if ctx.quick else "thorough"
-    jobs = {"impl": (_impl_cfg(f"Rules_{tier}.cfg"), dict(workers=max(2, core.NCPU // 2), timeout=2400))}
+    jobs = {"impl": (_impl_cfg(f"Rules_{tier}.cfg"), dict(workers=max(2, core.NCPU // 2), timeout=2400)),
+            "design": ("Rules_design.cfg", dict(workers=max(2, core.NCPU // 4), timeout=2400))}
     for w in ("vacuity_NeverFires", "vacuity_ImplHolds", "vacuity_NeverDeclines"):
         jobs[w] = (f"Rules_{w}.cfg", dict(workers=2, timeout=900, heap="2g"))
     with ThreadPoolExecutor(len(jobs)) as ex:
@@ -425,6 +736,9 @@ def tlc_cases(ctx):
     if not res["impl"].ok:
         raise core.MachineryError(f"TLC: {res['impl'].violated} violated in Rules.tla (design-level property or "
                                   f"unexplained deviation):\n{res['impl'].out[-2500:]}")
+    if not res["design"].ok:
+        raise core.MachineryError(f"TLC: with Deviations = {{}} the implementation model violates {res['design'].violated} - a "
+                                  f"property failure that is not tied to a named deviation:\n{res['design'].out[-2500:]}")
     for w in ("vacuity_NeverFires", "vacuity_ImplHolds", "vacuity_NeverDeclines"):
         if res[w].ok:
             raise core.MachineryError(f"vacuity: witness {w} is unreachable in Rules.tla - the invariants cannot fail")
@@ -444,11 +758,26 @@ def predicted_bad(c):
     return bool(i["raised"] or (i["fired"] and (not i["valid"] or enc_spec(i["res"]) != enc_spec(c["lhs"]) or c["unknown"])))
 
 
+PREFER = ["scatter_symbolic_raise", "relu_clip_no_dtype_raise", "cast_cos_overflow"]     # raises first: they hide the others
+
+
+def pick_finding(c):
+    """one deviation id out of `why` (all of them are needed for the model's outcome): raise-type deviations first when
+    the model says the attempt raises, otherwise alphabetical"""
+    why = sorted(c["why"])
+    if c["I"]["raised"]:
+        for d in PREFER:
+            if d in why:
+                return d
+    rest = [d for d in why if d not in PREFER] or why
+    return rest[0]
+
+
 def judge(ctx, c, ob, stats):
     """property verdict from implementation observables; spec comparison as SPEC-MISMATCH"""
     fam, p = c["fam"], c["p"]
     I = c["I"]
-    case = {"fam": fam, "p": p, "observed": ob, "spec": {"lhs": enc_spec(c["lhs"]), "I": {**I, "res": enc_spec(I["res"])},
+    case = {"fam": fam, "p": p, "aux": c["aux"], "observed": ob, "spec": {"lhs": enc_spec(c["lhs"]), "I": {**I, "res": enc_spec(I["res"])},
                                                           "D": {**c["D"], "res": enc_spec(c["D"]["res"])}, "why": c["why"]}}
     mism = []
     fired = bool(ob["fired"])
@@ -467,11 +796,12 @@ def judge(ctx, c, ob, stats):
         if raised != bool(I["raised"]):
             mism.append(f"raised: model {I['raised']} impl {ob['raised']}")
         if fired and I["fired"] and ob["before_err"] is None:
-            ok_after = ob["checker"] is None and ob["after_err"] is None
-            if ok_after != bool(I["valid"]):
-                mism.append(f"validity: model valid={I['valid']} impl checker={ob['checker']} ort={ob['after_err']}")
             res = enc_spec(I["res"])
-            if c["exact"] and I["valid"] and ob["after"] is not None:
+            if (ob["checker"] is None) != bool(I["valid"]) and ob["orig_checker"] is None:
+                mism.append(f"validity: model valid={I['valid']} impl checker={ob['checker']}")
+            if I["valid"] and (ob["after_err"] is None) != (res != "ERR"):
+                mism.append(f"runnable: model Rhs={res} impl ort={ob['after_err']}")
+            if c["exact"] and I["valid"] and ob["after"] is not None and res != "ERR":
                 if ob["after"][: len(tensors(res))] != tensors(res):
                     mism.append(f"Rhs: spec {res} ORT {ob['after']}")
     # ---- the property
@@ -489,11 +819,13 @@ def judge(ctx, c, ob, stats):
     if what is not None:
         finding = None
         if predicted_bad(c) and c["why"] and fired == bool(I["fired"]) and raised == bool(I["raised"]):
-            finding = sorted(c["why"])[0]
+            finding = pick_finding(c)
         ctx.report(case, f"{fam} {json.dumps(p, sort_keys=True)}: {what}", finding=finding)
         stats["bad"] += 1
     for m in mism:
         stats["mismatch"] += 1
+        k = f"{fam}:{m.split(':')[0]}"
+        stats["mismatch_kinds"][k] = stats["mismatch_kinds"].get(k, 0) + 1
         if stats["mismatch"] <= 25:
             print(f"SPEC-MISMATCH C05 {fam} {json.dumps(p, sort_keys=True)}: {m}", flush=True)
     return case
@@ -527,7 +859,7 @@ def select(ctx, cases):
         dev = [c for c in cs if c["why"]]
         fire = [c for c in cs if not c["why"] and nontrivial(c)]
         rest = [c for c in cs if not c["why"] and not nontrivial(c)]
-        out += dev[:120] + fire[:260] + rest[:140]
+        out += dev[:250] + fire[:450] + rest[:250]
     return out, False
 
 
@@ -537,7 +869,7 @@ def run(ctx: core.Ctx):
     ctx.set("spec_cases", len(cases))
     chosen, exhaustive = select(ctx, cases)
     obs = core.pmap_safe(_worker, chosen, timeout=120)
-    stats = {"bad": 0, "mismatch": 0, "orig_not_runnable": 0, "hang": 0}
+    stats = {"bad": 0, "mismatch": 0, "orig_not_runnable": 0, "hang": 0, "mismatch_kinds": {}}
     per_fam = {}
     nontriv = set()
     for c, ob in zip(chosen, obs):
@@ -560,6 +892,8 @@ def run(ctx: core.Ctx):
     ctx.set("distinct_nontrivial", len(nontriv))
     ctx.set("traces_validated_against_impl", ctx.coverage.get("evaluations", 0))
     ctx.set("model_impl_mismatches", stats["mismatch"])
+    if stats["mismatch_kinds"]:
+        ctx.set("model_impl_mismatch_kinds", stats["mismatch_kinds"])
     ctx.set("hosts_ort_refused", stats["orig_not_runnable"])
     ctx.set("exhaustive", bool(exhaustive))
     ctx.set("rule", "cases = reachable 'done' states of Rules.tla (rule family x parameter tuple, menus in the cfg); non-trivial = "
@@ -575,7 +909,7 @@ def run(ctx: core.Ctx):
 def replay(ctx, path):
     with open(path) as f:
         case = json.load(f)["case"]
-    ob = observe(case["fam"], case["p"], case["spec"]["lhs"])
+    ob = observe(case["fam"], case["p"], case["spec"]["lhs"], case["aux"])
     print(json.dumps({"fam": case["fam"], "p": case["p"], "now": ob}, indent=1, default=str))
     bad = ob["raised"] is not None or (ob["fired"] and (ob["checker"] is not None or ob["after_err"] is not None or (ob["same"] is not None and not all(ob["same"]))))
     return 1 if bad else 0
